@@ -55,6 +55,9 @@ func runC03(p *core.Program, r *core.Report) {
 	c03R2(p, r)
 	c03Tracker(p, r)
 	c03R8(p, r)
+	// R9: every name the namer hands out went through the argument rewriter, which is what
+	// registers the packages of a generic instantiation's type arguments (shared with C11.R6)
+	namerRewriteRule(p, r, "R9")
 }
 
 // c03R8: rendering a snippet registers its imports with the tracker of the
